@@ -38,6 +38,13 @@ for p in patches:
         subprocess.call(["git", "-C", "/repo", "worktree", "remove", "--force", dst], stdout=subprocess.DEVNULL, stderr=subprocess.DEVNULL)
         shutil.rmtree(tmp, ignore_errors=True)
     print("%-16s %-20s %s" % (results[-1][0], results[-1][1], "\n      ".join([""] + results[-1][2])), flush=True)
-bad = [r for r in results if r[1] != "silent"]
-print("%d refactorings, %d silent, %d not" % (len(results), len(results) - len(bad), len(bad)))
+known = set()
+kp = os.path.join(VERIF, "selftest", "benign_patches", "KNOWN_ALARMS.txt")
+if os.path.exists(kp):
+    known = {l.strip() for l in open(kp) if l.strip() and not l.startswith("#")}
+bad = [r for r in results if r[1] != "silent" and r[0] not in known]
+listed = [r for r in results if r[1] != "silent" and r[0] in known]
+fixed = [r for r in results if r[1] == "silent" and r[0] in known]
+print("%d refactorings, %d silent, %d not (%d of them listed in KNOWN_ALARMS.txt%s)" % (
+    len(results), len(results) - len(bad) - len(listed), len(bad) + len(listed), len(listed), "; now silent although listed: %s" % [r[0] for r in fixed] if fixed else ""))
 sys.exit(1 if bad else 0)
